@@ -257,6 +257,19 @@ def check(prop, tier, seed):
     results = run_tasks(tasks, nproc, tier, stop_when=confirmed_violation) if tasks else []
     n_skipped = len([r for r in results if r.get("skipped")])
     results = [r for r in results if not r.get("skipped")]
+    # a solver `unknown` or a budget kill under full load is not a verdict: such instances are run once more, one at a time
+    # (no contention) with three times the solver timeout, and only that second answer counts
+    def _shaky(r):
+        if "crash" in r:
+            return False
+        if any(o["status"] == "unknown" for o in r.get("obligations", [])):
+            return True
+        return bool(r.get("out_of_reach")) and ("hard limit" in r["out_of_reach"] or "budget" in r["out_of_reach"])
+    retry = [(r["contract"], r["binding"], tier, timeout_ms * 3) for r in results if _shaky(r)]
+    if retry and len(retry) <= 12:
+        again = run_tasks(retry, 1, tier)
+        by_key = {(r["contract"], json.dumps(r["binding"], sort_keys=True)): r for r in again if not r.get("skipped")}
+        results = [by_key.get((r["contract"], json.dumps(r["binding"], sort_keys=True)), r) if _shaky(r) else r for r in results]
     crashes = [r for r in results if "crash" in r]
     if crashes:
         for r in crashes[:3]:
